@@ -23,11 +23,12 @@ def build_brecovery():
     objs = build_repo_objects()
     src = os.path.join(REPO, 'bin', 'brecovery.cpp')
     hh = file_hash(repo_sources()) + hashlib.sha256(' '.join(CXXFLAGS).encode()).hexdigest()[:6]
-    exe = os.path.join(BUILD, 'bin', 'brecovery-%s' % hh)
+    exe = os.path.join(BUILD, 'bin', 'brecovery-sv-%s' % hh)
     if os.path.exists(exe):
         return exe
     os.makedirs(os.path.dirname(exe), exist_ok=True)
-    rc, out = sh(['g++'] + CXXFLAGS + ['-fno-sanitize=nonnull-attribute', src] + objs + ['-o', exe + '.tmp', '-lpthread'])
+    # _GLIBCXX_SANITIZE_VECTOR: AddressSanitizer also sees accesses between size() and capacity() of a std::vector
+    rc, out = sh(['g++'] + CXXFLAGS + ['-fno-sanitize=nonnull-attribute', '-D_GLIBCXX_SANITIZE_VECTOR', src] + objs + ['-o', exe + '.tmp', '-lpthread'])
     if rc != 0:
         raise BuildError('brecovery does not build:\n' + out[-3000:])
     os.replace(exe + '.tmp', exe)
@@ -92,7 +93,37 @@ def data_block(rng, mutate):
     return DATA_MAGIC + G.u64(rng.choice([1, 2, 0x7f0000001000])) + G.u64(w) + G.u64(e) + G.u64(cap) + G.u64(0xdeadbeef) + G.u64(r) + bytes(buf)
 
 
+def gen_many_image(rng):
+    """an image of ONE process with many writers: 17..40 valid queue blocks of one session, most of them holding the same
+    amount of data (or none), plus its metadata blocks - more recovered buffers than any small-input path of the sort handles"""
+    session = rng.choice([1, 2, 0x7f0000001000])
+    nq = rng.choice([17, 18, 24, 33, 40])
+    same = G.frame(G.rand_bytes(rng, 12))
+    parts = [META_MAGIC + G.u64(session) + G.u64(len(same)) + same, META_MAGIC + G.u64(session) + G.u64(0)]
+    for i in range(nq):
+        cap = 32
+        body = same if rng.random() < 0.8 else (b'' if rng.random() < 0.5 else G.frame(G.rand_bytes(rng, 5)))
+        buf = body + bytes(cap - len(body)) if len(body) <= cap else bytes(cap)
+        w = len(body) if len(body) <= cap else 0
+        parts.append(DATA_MAGIC + G.u64(session) + G.u64(w) + G.u64(0) + G.u64(cap) + G.u64(0xdeadbeef) + G.u64(0) + buf)
+        if rng.random() < 0.2:
+            parts.append(bytes(rng.randrange(256) for _ in range(rng.randrange(0, 9))))
+    rng.shuffle(parts)
+    return b''.join(parts)
+
+
+def entries_multiset(b):
+    out, pos = [], 0
+    while pos + 4 <= len(b):
+        n = int.from_bytes(b[pos:pos + 4], 'little')
+        out.append(b[pos:pos + 4 + n])
+        pos += 4 + n
+    return sorted(out)
+
+
 def gen_image(rng):
+    if rng.random() < 0.04:
+        return gen_many_image(rng)
     parts = []
     for _ in range(rng.choice([0, 1, 2, 3, 5])):
         k = rng.randrange(10)
@@ -158,6 +189,9 @@ def check_c20(ctx):
             prop_fail.add(i)
             ctx.violation('partial-' + key, 'C20: brecovery wrote something that is not a sequence of complete entries',
                           {'kind': 'input', 'image_hex': images[i].hex(), 'impl': a})
+        elif a != b and images[i].count(DATA_MAGIC) > 16 and b.startswith('out=') and not b.startswith('out=ERR') \
+                and entries_multiset(bytes.fromhex(a[4:])) == entries_multiset(bytes.fromhex(b[4:])):
+            pass      # more than 16 buffers: std::sort is not stable, buffers that tie on (session, type) may come in any order
         elif a != b:
             mism.append(i)
             ctx.violation('corr-recover-' + key, 'correspondence recover broke: model and brecovery disagree',
